@@ -57,8 +57,12 @@ type v30tSim struct {
 	dead  bool
 	msgCh chan Message
 
-	lastMsgs   []string
-	lastBefore []string
+	lastMsgs []string
+	// shiftPending: the harness moved latestTimeUpdate back and the decay of those seconds may not have been
+	// applied yet (the wait ended before a ticker-driven updateTime): the next operation applies it lazily, so
+	// the reputations of the 'before' snapshot overstate the ban and are not usable for the banned-accepted verdict
+	shiftPending bool
+	lastBefore   []string
 }
 
 func v30tNew(c *vcommon.Case, cfg v30tCfg) (*v30tSim, error) {
@@ -277,6 +281,8 @@ func (s *v30tSim) op(desc string, f func()) bool {
 		s.ops = append(s.ops[:0], s.ops[20:]...)
 	}
 	before := s.snap()
+	pendingShift := s.shiftPending
+	s.shiftPending = false
 	f()
 	s.barrier()
 	msgs := s.drain()
@@ -299,9 +305,17 @@ func (s *v30tSim) op(desc string, f func()) bool {
 		rb, okb := before.rep[p]
 		ra, oka := after.rep[p]
 		s.c.Eval(1)
+		if pendingShift {
+			s.c.Count("tick_banned_verdict_skipped_pending_clock_shift", 1)
+			continue
+		}
 		if okb && oka && int64(rb) < margin && int64(ra) < margin {
-			s.viol("banned-accepted", fmt.Sprintf("%s message for non-reserved peer %s (set %d) whose reputation was %d before and %d after the operation (threshold %d)", v30StatusName(m.Status), v30Name(p), m.setID, rb, ra, BannedThresholdValue), after, nil)
-			return false
+			// NOT a verdict in this group: with a live ticker goroutine and lazily applied decay the reputation AT
+			// EMISSION TIME is not observable from the before/after snapshots (a pending clock shift is applied inside
+			// the operation, the peer may legitimately be re-connected and then banned again by the same report).
+			// The sound, state-based clause "no connected non-reserved peer below the threshold" is asserted by check()
+			// on every snapshot; the single-threaded groups keep the message-based verdict.
+			s.c.Count("tick_connect_msg_for_peer_banned_before_and_after_not_judged", 1)
 		}
 	}
 	return s.check("after "+desc, after)
@@ -351,6 +365,7 @@ func (s *v30tSim) banDecayTick(r *vcommon.Rand) {
 	s.ps.Lock()
 	s.ps.latestTimeUpdate = time.Now().Add(-time.Duration(k)*time.Second - 500*time.Millisecond)
 	s.ps.Unlock()
+	s.shiftPending = true
 	seen := map[int]bool{}
 	for poll := 0; poll < 600 && len(seen) < len(wasOut); poll++ {
 		time.Sleep(time.Duration(s.cfg.PeriodMs) * time.Millisecond / 2)
